@@ -17,8 +17,7 @@ RULE = ('envelope: every payload length 1..4100 (all residues mod 3 and mod 48) 
         'a corruption case, or an object with headers; distinct by (length, fill, input form) / (kind, header count) / (block, position, char).')
 RULE += ' The checksum field is also replaced wholesale by 000000, FFFFFF, the CRC-24 initial value and neighbours, and payloads whose true CRC is 000000 are corrupted like the others. Header values are any printable text (with \': \' inside, empty, UTF-8), surroundings may be non-ASCII; the caller\'s bytearray is untouched and loads twice; the \'=\' of the checksum line and single characters replaced by non-ASCII / control characters count as corruptions.'
 ASSUMPTIONS = ['refpgp.armor is an independent section 6 reader/writer; its CRC-24 is checked against the published check value 0x21CF02',
-               'the CRC warning is PGPy\'s reporting channel for a payload that does not match its CRC', 'header values are generated without ": " inside '
-               '(PGPy re-reads "a: b: c" with key "a: b"; the statement does not cover re-reading header text)']
+               'the CRC warning is PGPy\'s reporting channel for a payload that does not match its CRC', 'a block without checksum line is well formed (RFC 4880 6.1: the checksum MAY appear)']
 
 B64 = 'ABCDEFGHIJKLMNOPQRSTUVWXYZabcdefghijklmnopqrstuvwxyz0123456789+/'
 
